@@ -13,6 +13,7 @@ def parseOp (s : String) : Option Op :=
   | 'B' :: hex => (parseHex (String.ofList hex)).map .feed
   | 'A' :: n => (String.ofList n).toNat?.map .advance
   | 'C' :: n => (String.ofList n).toNat?.map .cancel
+  | ['N'] => some .sendNR
   | ['E'] => some .eof
   | ['X'] => some .close
   | _ => none
